@@ -150,6 +150,19 @@ pub fn run(r: &mut Runner) {
     for h in [0.0, -0.0, 1.0, -1.0, 600.0, -600.0, next_up(600.0), next_down(600.0), 1.0 - 2f64.powi(-10), -(1.0 - 2f64.powi(-10)), next_up(1.0 - 2f64.powi(-10)), 2f64.powi(60), -2f64.powi(60), 0.5, 0.999, 1e300, -1e300, 710.0, -745.0, 5e-324] {
         xs.extend(with_los(h, &[0, 1, 30], &[0, (1u64 << 52) - 1], &[]));
     }
+    // linear ladders over the O(1) range, and pre-images of the strata of the inner exp / ln:
+    // asinh, acosh, atanh end in ln, which iterates on exp with quarter-integer reduction points
+    xs.extend(crate::fx::linear_ladder(1, 512, 128.0, true));
+    for k in (1..=170i64).step_by(if quick { 3 } else { 1 }) {
+        let q = k as f64 * 0.25;
+        for d in [0.0, 1.0, -1.0, 1.0 / 16.0, -1.0 / 16.0] {
+            let t = tfref::bf::Bf::from_f64(q).add_exact(&tfref::bf::Bf::from_f64(d * 2f64.powi(-55) * q));
+            for w in [crate::fx::dd_of(&rf::sinh_pt(&t, 256)), crate::fx::dd_of(&rf::cosh_pt(&t, 256)), crate::fx::dd_of(&rf::tanh_pt(&t, 256))].into_iter().flatten() {
+                xs.push(w);
+                xs.push([-w[0], -w[1]]);
+            }
+        }
+    }
     xs.push([1.0, -2f64.powi(-60)]);
     xs.push([-1.0, 2f64.powi(-60)]);
     dedup(&mut xs);
